@@ -3,6 +3,7 @@ import Feox.Gen.Loops
 import Feox.Gen.Constants
 import Feox.Conc.Solo
 import Feox.Conc.Pin
+import Feox.Conc.Reentrant
 /-!
 # C18 — calls, flush and close always terminate  *(partial: deadlock- and livelock-freedom of the modelled protocols)*
 
@@ -121,5 +122,12 @@ example : Chain [.retireFlush, .disk, .freeSpace] :=
   ⟨⟨"flush_pending_deletions -> process_deletions", by decide⟩,
    ⟨"process_write_batch -> failed_batch_outcome", by decide⟩, trivial⟩
 example : lockEdges.length ≥ 5 := by decide
+
+/-- why `gen_locks` reports a lock acquired again while held as an edge from the lock to itself,
+which `lock_order_acyclic` refuses: with a writer-preferring readers-writer lock a nested read
+acquisition and a queued writer wait for each other (seeded change C18-5) -/
+theorem reentrant_read_deadlocks :
+    Conc.Reentrant.stuck (Conc.Reentrant.run { scan := Conc.Reentrant.reentrantScan, flush := Conc.Reentrant.worker } [true, false]) = true :=
+  Conc.Reentrant.reentrant_read_deadlocks
 
 end Feox.C18
